@@ -41,6 +41,22 @@ Core(r) == IF Len(r) >= 2 /\ r[1] = r[Len(r)] THEN SubSeq(r, 1, Len(r) - 1) ELSE
 TouchFromInside(bx, in) == \E r \in AllRingsOf(in) : LET c == Core(r)  n == Len(c) IN
     \E i \in 1..n : /\ OnBoxBoundary(bx, c[i])
                     /\ MeetsOpen(bx, c[((i + n - 2) % n) + 1], c[i]) /\ MeetsOpen(bx, c[i], c[(i % n) + 1])
+\* The recorded finding, narrowed to where it can occur.  At such a vertex V the open clip ends one piece (coming from the
+\* previous vertex P) and starts the next; smartWrap must visit that end immediately before that start.  The endpoints
+\* are sorted around the box by sortableEndpoints.Less, which for two endpoints at one place compares one coordinate of
+\* "the point before": P's for the end, V's own for the start.  Written out per side (pointSide: top 4, bottom 2, right 3,
+\* left 1, corners to top / bottom) the order is guaranteed right exactly when u = P - V points the way listed below; in
+\* every other direction (and for rings wound against the requested orientation, i.e. holes) the finding may show.
+PointSide(bx, p) == IF p[2] = bx[4] THEN 4 ELSE IF p[2] = bx[2] THEN 2 ELSE IF p[1] = bx[3] THEN 3 ELSE 1
+FailProne(o, s, u) == IF o = 1 THEN (CASE s = 1 -> u[2] <= 0 [] s = 2 -> u[1] >= 0 [] s = 3 -> u[2] >= 0 [] OTHER -> u[1] <= 0)
+                      ELSE (CASE s = 1 -> u[2] >= 0 [] s = 2 -> u[1] <= 0 [] s = 3 -> u[2] <= 0 [] OTHER -> u[1] >= 0)
+TouchFailProne(bx, in, o) == \E r \in AllRingsOf(in) : LET c == Core(r)  n == Len(c) IN
+    \E i \in 1..n : LET pv == c[((i + n - 2) % n) + 1] IN
+                    /\ OnBoxBoundary(bx, c[i])
+                    /\ MeetsOpen(bx, pv, c[i]) /\ MeetsOpen(bx, c[i], c[(i % n) + 1])
+                    /\ \/ Sign(Shoelace2(c)) # o
+                       \/ FailProne(o, PointSide(bx, c[i]), <<pv[1] - c[i][1], pv[2] - c[i][2]>>)
+                       \/ \E r2 \in AllRingsOf(in) : r2 # r /\ OnRing(r2, c[i])     \* endpoints of another ring at the same place
 AllInside(bx, in) == \A r \in AllRingsOf(in) : \A k \in 1..Len(r) : InBoxOpen(bx, r[k])
 
 \* ---------- implementation-shaped: aroundBound ---------------------------------------------------------------
